@@ -568,7 +568,12 @@ fn dump_crate<'tcx>(tcx: TyCtxt<'tcx>) -> Vec<(&'static str, J)> {
             DefKind::Struct | DefKind::Enum | DefKind::Union => {
                 let adt = tcx.adt_def(did);
                 let mut variants = vec![];
-                for var in adt.variants() {
+                let discrs: Vec<i128> = if adt.is_enum() {
+                    adt.discriminants(tcx).map(|(_, d)| d.val as i128).collect()
+                } else {
+                    vec![0]
+                };
+                for (vi, var) in adt.variants().iter().enumerate() {
                     let fields: Vec<J> = var
                         .fields
                         .iter()
@@ -583,7 +588,11 @@ fn dump_crate<'tcx>(tcx: TyCtxt<'tcx>) -> Vec<(&'static str, J)> {
                             ])
                         })
                         .collect();
-                    variants.push(J::Obj(vec![("name", J::s(var.name.to_string())), ("fields", J::Arr(fields))]));
+                    variants.push(J::Obj(vec![
+                        ("name", J::s(var.name.to_string())),
+                        ("discr", J::Int(discrs.get(vi).copied().unwrap_or(-1))),
+                        ("fields", J::Arr(fields)),
+                    ]));
                 }
                 let (file, line) = line_of(tcx, tcx.def_span(did));
                 adts.push(J::Obj(vec![
